@@ -103,7 +103,9 @@ def _systems():
     return S
 
 
-JUNKS = [None, {"ZZ": 1}, {"ZZ": 2, "YY": {"K": [1]}}]
+# the second junk dictionary also spells out two of the library's own switches in a form that changes nothing
+# (effects explicitly not disabled, logging off): no graph refers to them, so they must not cost a body run
+JUNKS = [None, {"ZZ": 1}, {"ZZ": 2, "YY": {"K": [1]}, "LABREA": {"EFFECTS": {"DISABLED": False}, "LOGGING": {"DISABLED": True}}}]
 
 
 def cases(tier, seed):
